@@ -1,7 +1,7 @@
 (* Props/C04.v — C04: identifier resolution in the JS tree follows ECMAScript scoping.
    Statements only; each is closed by [exact] of a lemma proved in JsScope/*.v. *)
 From Verif Require Import Common.Base JsScope.Model JsScope.Spec JsScope.HeapLemmas JsScope.Proofs JsScope.Main
-  JsScope.Rename JsScope.Main2.
+  JsScope.Rename JsScope.Main2 JsScope.Refuted.
 
 (* declare_twice_rejected (needed by C03), in the three forms Declare implements.
    (1) a parameter / let / const / class / catch-parameter declaration of a name the scope already
@@ -106,3 +106,29 @@ Theorem rename_alpha :
         map (fun vt => match snd vt with TGlobal x => TGlobal x | TBind s a _ => TBind s a (rho (fst vt)) end) (combine vs ts).
 Proof. exact rename_alpha_core. Qed.
 Print Assumptions rename_alpha.
+
+(* ---- clauses of the property text that are FALSE of the faithful model (and of /repo: KNOWN_FINDINGS.txt
+   c04-es:..., witnesses also in corpus/C04.txt where model and implementation agree).  [deviates p]: p has
+   no redeclaration error, the model resolves it, and its partition by Var differs from the declarative one. *)
+
+(* "parameters and their default-value expressions": a default value that mentions a later parameter, and a
+   body reference that precedes the body's own declaration of a name a default value mentions *)
+Theorem resolution_param_defaults_refuted : deviates w_fwd_param /\ deviates w_default_capture.
+Proof. exact (conj w_fwd_param_deviates w_default_capture_deviates). Qed.
+Print Assumptions resolution_param_defaults_refuted.
+
+(* "function- and class-expression names" *)
+Theorem resolution_expression_names_refuted : deviates w_funcexpr_name /\ deviates w_classexpr_name.
+Proof. exact (conj w_funcexpr_name_deviates w_classexpr_name_deviates). Qed.
+Print Assumptions resolution_expression_names_refuted.
+
+(* "loop heads": head and body share one Scope *)
+Theorem resolution_loop_heads_refuted : deviates w_loop_head.
+Proof. exact w_loop_head_deviates. Qed.
+Print Assumptions resolution_loop_heads_refuted.
+
+(* "catch-parameter block scoping": var redeclaring the parameter in a nested block; a default value of the
+   parameter pattern that mentions a name the block declares *)
+Theorem resolution_catch_refuted : deviates w_catch_var /\ deviates w_catch_head.
+Proof. exact (conj w_catch_var_deviates w_catch_head_deviates). Qed.
+Print Assumptions resolution_catch_refuted.
